@@ -4,6 +4,7 @@ import json
 import random
 
 import common as C
+import c12_fill
 
 COQ_FILES = ("Base/Bytes.v", "L4_Eval/Store.v", "L5_Stores/Lru.v", "L5_Stores/RunStore.v", "L5_Stores/LruProofs.v", "L5_Stores/LruMulti.v",
              "Extracted/ConstLru.v", "Properties/C12.v", "Properties/C12b.v", "Base/PyRt.v", "Extracted/GenLru.v", "Extracted/GenCacheOpt.v", "L5_Stores/GenLruProofs.v", "L5_Stores/GenCacheOptProofs.v", "Properties/C12g.v")
@@ -112,8 +113,15 @@ def run(rep, tier, seed, proof_ok):
     rep.rule = ("operation sequences (has/fetch/store blob, sync/fetch paths) over keys {absent, present, stored-later, None-valued}: "
                 "exhaustive up to length 4 (quick, sampled 500) / 5 (thorough) over 2 keys + random length 5..40 over 4 keys; capacities "
                 "{1,2,3,10,unbounded}; real LRUCacheStore over real MemoryStore and LocalFileStore in lock-step with the bare store and "
-                "with the Coq model (memory); plus 2-3 cache wrappers sharing one inner store with interleaved operations (multi-client model); distinct = distinct (store, capacity, sequence); non-trivial = contains a fetch or has "
-                "after another operation on the same key")
+                "with the Coq model (memory); plus 2-3 cache wrappers sharing one inner store with interleaved operations (multi-client model); "
+                "plus the fill dimension (c12_fill.py): key sets LARGER than the capacity (capacity+3 .. 2*capacity+6 distinct keys, None-valued and "
+                "stored-late ones included) x capacities {1,2,3,4,5,7,8,9,10,cache_objects=True default,15,16,17,23,24,25,31,32,33} (thorough: + "
+                "{6,11,12,13,39,40,41,47,48,49,63,64,65,100,127,128,129}) x 8 sequence shapes that fill the cache completely and keep fetching new keys "
+                "(scan, fill-then-new, zigzag, hot-cold, late-store, bursts, restore, random) x {memory, local} x wrapper built directly / through "
+                "dds.set_store(cache_objects=), plus 2-3 clients over one store; answers in lock-step with the bare store, cache entries and fetched objects "
+                "still alive (weak references) compared with the configured bound after EVERY operation, and the Coq model (memory); "
+                "distinct = distinct (store, capacity, sequence); non-trivial = contains a fetch or has "
+                "after another operation on the same key (fill: a never-fetched key is fetched while the cache is full)")
     seqs = gen_sequences(rng, tier if proof_ok else "thorough")
     caps = [1, 2, 3, 10, "unbounded"]
     jobs = []
@@ -212,6 +220,8 @@ def run(rep, tier, seed, proof_ok):
         if w["store"] == "memory" and mmodel[k2 // 2] != ";".join(rw["outs"]):
             rep.violation("model-mismatch:lru-multi", "multi-client LRU model and implementation disagree",
                           {"multi": True, "cap": w["cap"], "ops": w["ops"], "impl": ";".join(rw["outs"]), "model": mmodel[k2 // 2]})
+    # key sets larger than the capacity: the bound after every operation (c12_fill.py)
+    fill = c12_fill.run(rep, tier, seed, proof_ok, rng, ops_coq, PRELUDE)
     # option decoding
     dexprs = []
     for a in decode_args:
@@ -223,13 +233,15 @@ def run(rep, tier, seed, proof_ok):
         if i != m:
             rep.violation(f"decode:{a}", f"cache_objects={a}: implementation gives {i}, model {m}", {"cache_objects": a, "impl": i, "model": m})
     rep.extra["input_distribution"] = {"sequences": len(seqs), "jobs": len(jobs), "max_len": max(len(s) for s in seqs),
-                                       "cache_len_histogram": lens_hist}
+                                       "cache_len_histogram": lens_hist, "fill": fill}
     rep.sample({"store": jobs[0]["store"], "cap": jobs[0]["cap"], "ops": jobs[0]["ops"]})
     rep.sample({"store": jobs[-2]["store"], "cap": jobs[-2]["cap"], "ops": jobs[-2]["ops"]})
 
 
 def replay(path):
     r = json.load(open(path))["replay"]
+    if r.get("fill"):
+        return c12_fill.replay(r)
     if r.get("multi"):
         o = C.run_driver("drive_store.py", {"seqs": [{"store": r.get("store", "memory"), "cap": r["cap"], "clients": r.get("clients", 2), "ops": r["ops"]},
                                                      {"store": r.get("store", "memory"), "cap": "bare", "ops": [x for _, x in r["ops"]]}]})["seqs"]
